@@ -202,7 +202,7 @@ def tlc_must_pass(res, what):
 # ---------------------------------------------------------------------------
 # Harness execution with isolation
 
-def run_cases(cases, name, timeout_ms=10000, workers=None):
+def run_cases(cases, name, timeout_ms=10000, workers=None, mem_mb=None):
     """Runs the cases (list of dicts) through vharness; returns results aligned by index.
 
     A native crash of the harness is attributed to the case that was running
@@ -214,7 +214,7 @@ def run_cases(cases, name, timeout_ms=10000, workers=None):
     for fn in os.listdir(d):
         os.unlink(os.path.join(d, fn))
     n = len(cases)
-    workers = max(1, min(workers, (n + 49) // 50))
+    workers = max(1, min(workers, (n + 49) // 50 if not name.endswith("_retry") else workers))
     bounds = [(n * w // workers, n * (w + 1) // workers) for w in range(workers)]
     procs = []
     for w, (lo, hi) in enumerate(bounds):
@@ -227,11 +227,16 @@ def run_cases(cases, name, timeout_ms=10000, workers=None):
                       "of": os.path.join(d, f"o{w}.ndjson"), "start": 0, "p": None,
                       "extra": []})
 
+    def limit():
+        import resource
+        resource.setrlimit(resource.RLIMIT_AS, (mem_mb * 1024 * 1024, mem_mb * 1024 * 1024))
+
     def launch(pr):
         pr["p"] = subprocess.Popen(
             [HARNESS_BIN, "exec", pr["cf"], pr["of"], "--start", str(pr["start"]),
              "--timeout-ms", str(timeout_ms)],
-            stdout=subprocess.DEVNULL, stderr=subprocess.PIPE)
+            stdout=subprocess.DEVNULL, stderr=subprocess.PIPE,
+            preexec_fn=limit if mem_mb else None)
 
     for pr in procs:
         launch(pr)
@@ -283,6 +288,15 @@ def run_cases(cases, name, timeout_ms=10000, workers=None):
                     results[pr["lo"] + r["i"]] = r
         for r in pr["extra"]:
             results[pr["lo"] + r["i"]] = r
+    # A time-out under a loaded machine is not evidence about the code: run every timed-out
+    # case once more, alone, with a six times longer limit; only a second time-out stands.
+    again = [i for i, r in enumerate(results) if r is not None and "timeout" in r]
+    if again and not name.endswith("_retry"):
+        redo = run_cases([cases[i] for i in again], name + "_retry", timeout_ms=timeout_ms * 6,
+                         workers=min(4, len(again)), mem_mb=mem_mb)
+        for i, r in zip(again, redo):
+            r["retried"] = True
+            results[i] = r
     for i, r in enumerate(results):
         if r is None:
             raise ToolError(f"harness produced no result for case {i} of {name}")
